@@ -46,8 +46,14 @@ PosEq(f, x, y) == M(f, x) = M(f, y) /\ I(f, x) * D(f, y) = I(f, y) * D(f, x)
 
 (* tempo list of the file: #BPM at beat 0, then the 03 / 08 events by position (an event at measure 0 *)
 (* beat 0 overrides the header tempo)                                                               *)
+(* EXTENSION (channel 02, outside the listed properties): f.sigs = seq of [m, f1000]: measure m is f1000/1000 of a 4/4 *)
+(* measure long (only that measure).  Without such lines every measure is 4 beats and the formulas below are exact.    *)
+MLen(f, m) == LET S == { k \in DOMAIN f.sigs : f.sigs[k].m = m } IN
+              IF S = {} THEN 19200 ELSE (19200 * f.sigs[CHOOSE k \in S : TRUE].f1000) \div 1000
+RECURSIVE MStart(_, _)
+MStart(f, m) == IF f.sigs = <<>> THEN 19200 * m ELSE IF m = 0 THEN 0 ELSE MStart(f, m - 1) + MLen(f, m - 1)
 TempoEvents(f) == { x \in Pairs(f) : Ch(f, x) \in {"03", "08"} }
-P4800(f, x) == M(f, x) * 19200 + (19200 * I(f, x)) \div D(f, x)
+P4800(f, x) == MStart(f, M(f, x)) + (MLen(f, M(f, x)) * I(f, x)) \div D(f, x)
 RECURSIVE SortTempo(_, _)
 SortTempo(f, S) == IF S = {} THEN <<>>
                    ELSE LET x == CHOOSE x \in S : \A y \in S : P4800(f, x) <= P4800(f, y) IN
@@ -56,8 +62,12 @@ TempoList(f) ==
     LET ev == SortTempo(f, TempoEvents(f)) IN
     IF ev # <<>> /\ ev[1].p = 0 THEN ev ELSE << [p |-> 0, bl |-> f.bpm0] >> \o ev
 
-PairTicksTL(f, tl, x) == BeatToTicks(tl, 0, 4 * M(f, x) + (4 * I(f, x)) \div D(f, x), (4 * I(f, x)) % D(f, x), D(f, x))
-PairBlTL(f, tl, x) == BlAt(tl, 4 * M(f, x) + (4 * I(f, x)) \div D(f, x), (4 * I(f, x)) % D(f, x), D(f, x))
+PairTicksTL(f, tl, x) ==
+    IF f.sigs = <<>> THEN BeatToTicks(tl, 0, 4 * M(f, x) + (4 * I(f, x)) \div D(f, x), (4 * I(f, x)) % D(f, x), D(f, x))
+    ELSE LET p == P4800(f, x) IN BeatToTicks(tl, 0, p \div 4800, p % 4800, 4800)
+PairBlTL(f, tl, x) ==
+    IF f.sigs = <<>> THEN BlAt(tl, 4 * M(f, x) + (4 * I(f, x)) \div D(f, x), (4 * I(f, x)) % D(f, x), D(f, x))
+    ELSE LET p == P4800(f, x) IN BlAt(tl, p \div 4800, p % 4800, 4800)
 
 Wav(f, id) == LET S == { i \in DOMAIN f.wavs : f.wavs[i].id = id } IN IF S = {} THEN "" ELSE f.wavs[CHOOSE i \in S : TRUE].file
 
